@@ -279,6 +279,76 @@ def run(ck, prog, tier, load):
     feats = prog.manifests.get("actix_web", {}).get("features", [])
     ck.note("actix_web features in this extraction: %s" % feats)
 
+    # Readlines: where a line end was found, the length compared with the limit covers at least the bytes taken for the line
+    # (`split_to(n)`): comparing one byte less lets a line of limit + 1 bytes through in that branch only, so the outcome
+    # depends on how the body was chunked
+    def linear(e):
+        """e as {atom: coeff} with '1' for the constant part; None if not a sum"""
+        e2 = e
+        while isinstance(e2, tuple) and e2[0] == "cast":
+            e2 = e2[1]
+        if e2[0] == "const" and isinstance(e2[2], int):
+            return {"1": e2[2]}
+        if e2[0] == "place" and e2[1][0] == "bin" and e2[1][1] in ("Add", "AddWithOverflow") and e2[2] == (".0",):
+            a, b_ = linear(e2[1][2]), linear(e2[1][3])
+            if a is None or b_ is None:
+                return None
+            out = dict(a)
+            for k, v in b_.items():
+                out[k] = out.get(k, 0) + v
+            return out
+        if e2[0] == "bin" and e2[1] in ("Add", "AddWithOverflow"):
+            a, b_ = linear(e2[2]), linear(e2[3])
+            if a is None or b_ is None:
+                return None
+            out = dict(a)
+            for k, v in b_.items():
+                out[k] = out.get(k, 0) + v
+            return out
+        return {canon(e2, 5): 1}
+    for rb in prog.find(r"^<actix_web::types::readlines::Readlines<T> as futures_core::stream::Stream>::poll_next$"):
+        n_rl = 0
+        for bb, e in rb.ret_exprs():
+            if not any(is_agg(x, r"ReadlinesError::LimitOverflow$") for x in walk(e)):
+                continue
+            cmps = []
+            for c, lab, a in rb.guards(bb):
+                n = norm_cmp(c, lab) if isinstance(lab, bool) else None
+                if n and n[0] in ("Le", "Lt") and (e_has_field(n[1], r"\.limit$") or e_has_field(n[2], r"\.limit$")):
+                    cmps.append((a, n[2] if e_has_field(n[1], r"\.limit$") else n[1]))
+            if not cmps:
+                continue
+            a_blk, val = cmps[0]
+            # the line produced on the other edge of that comparison
+            takes = [(b2, rb.op_expr(t["args"][1], 6)) for b2, t in rb.calls(r"BytesMut::split_to$|Bytes::split_to$") if rb.dominates(a_blk, b2) and not rb.dominates(bb, b2)]
+            if not takes:
+                continue   # end-of-stream branch: the whole buffer is the line, compared as buf.len()
+            n_rl += 1
+            lv = linear(val)
+            ok = lv is not None
+            for b2, tk in takes[:1]:
+                lt = linear(tk)
+                ok = ok and lt is not None and all(lv.get(k, 0) >= v for k, v in lt.items())
+            ck.ob("C12-c.readlines-bound-covers-line", "Readlines::poll_next|line %d" % n_rl, ok, rb, bb, "the length tested against the limit (%s) is at least the number of bytes split off as the line (%s)" % (short(val, 4), short(takes[0][1], 4)))
+        ck.anchor("C12-c", n_rl, 2, "newline-found branches of Readlines::poll_next with a limit test")
+    # multipart forms: a part that is ignored is still read through discard_field, which charges it to the form's Limits
+    n_ig = 0
+    for hb in prog.find(r"actix_multipart::form::FieldGroupReader<'t>>::handle_field$"):
+        edges = edges_where(hb, lambda c, lab: c[0] == "discr" and (c[2] or "").endswith("DuplicateField") and lab == "Ignore")
+        for a, tb in edges:
+            n_ig += 1
+            drains = []
+            for bb, i, s_ in hb.assigns():
+                rv = s_["rv"]
+                if rv["k"] == "agg" and rv.get("ak") in ("closure", "coroutine"):
+                    cb2 = prog.bodies.get(rv.get("def")) or next((x for x in prog.bodies.values() if x.npath == norm(rv.get("def"))), None)
+                    if cb2 is not None and any(True for c_ in prog.with_closures(cb2) for _ in c_.calls(r"form::discard_field$")):
+                        drains.append(bb)
+            drains += [bb for bb, t in hb.calls(r"form::discard_field$")]
+            ok = bool(drains) and hb.must_pass([tb], hb.returns(), drains)[0]
+            ck.ob("C12-c.ignored-part-is-drained", "::".join(hb.npath.split("::")[-3:])[:60], ok, hb, tb, "an ignored duplicate part is consumed through discard_field(field, limits) (its bytes count against the form's limits) before Ok is returned")
+    ck.anchor("C12-c", n_ig, 1, "DuplicateField::Ignore arms in FieldGroupReader::handle_field")
+
 
 def var_is(b, local, val, name=None):
     def p(c, lab):
